@@ -1,6 +1,6 @@
 (* C33 — A failed run never changes the served data. *)
 From Coq Require Import List NArith ZArith Bool.
-From RV Require Import C11.Model C13.Model C15.Model C15.Proofs.
+From RV Require Import C11.Model C13.Model C15.Model C15.Proofs C15.Spec C15.SpecProofs.
 Import ListNotations.
 Local Open Scope N_scope.
 
@@ -13,6 +13,12 @@ Proof. exact failed_run_changes_nothing. Qed.
    the failed runs erased *)
 Theorem C33_failures_erased : forall s rs, run_cycles s rs = run_cycles s (filter r_ok rs).
 Proof. exact failures_erased. Qed.
+
+(* the executable oracle of the shared server stream (C15/Spec.v) accepts what the model answers at
+   every gap of every cycle of every schedule (see C15/SpecProofs.v for the hypothesis on probes) *)
+Theorem C33_model_satisfies_spec : forall c, c_keep c < H31 -> N.of_nat (length (c_cycles c)) <= M32 ->
+  inputs_ok c = true -> probes_ok (srv_init (c_keep c)) (c_cycles c) -> spec_okb (model_case c) = true.
+Proof. exact model_satisfies_spec. Qed.
 
 Example C33_nonvacuous :
   let a := {| origins := [(1, tt)]; rkeys := []; aspas := [] |} in
